@@ -170,6 +170,9 @@ class Tensor:
         if isinstance(data, Tensor):
             self.copy_from(data); return
         
+        if isinstance(data, np.generic):
+            # NumPy scalar (0-d result of a reduction, indexing, ...): keep its dtype
+            data = np.asarray(data)
         if not isinstance(data, np.ndarray):
             try:
                 data = np.array(data, dtype=default_type__)
